@@ -703,3 +703,36 @@ func MutateStream(c *simkit.Choices, evs []simkit.Ev, n int) []simkit.Ev {
 	}
 	return out
 }
+
+// RetypeNumbers re-delivers about half of the integer events of a stream in
+// another integer event kind that can hold the same value (Int8(5) as
+// Uint16(5), Int64(5), Byte(5) ...): what a document looks like after it went
+// through another format. The VALUE of the stream is unchanged, so every
+// expectation about the result still holds. (Negative values are never
+// delivered as OnInt(int): the pinned tree hands those to a user-defined
+// UnfoldState as OnUint - a value defect outside the claimed properties.)
+func RetypeNumbers(c *simkit.Choices, evs []simkit.Ev) []simkit.Ev {
+	out := append([]simkit.Ev{}, evs...)
+	for i, e := range out {
+		var v int64
+		switch e.K {
+		case simkit.KInt8, simkit.KInt16, simkit.KInt32, simkit.KInt64, simkit.KInt:
+			v = e.I
+		case simkit.KByte, simkit.KUint8, simkit.KUint16, simkit.KUint32, simkit.KUint64, simkit.KUint:
+			if e.U > math.MaxInt64 {
+				continue
+			}
+			v = int64(e.U)
+		default:
+			continue
+		}
+		if c.Bool() {
+			ne := intEvent(c, v)
+			if ne.K == simkit.KInt && v < 0 {
+				ne.K = simkit.KInt64
+			}
+			out[i] = ne
+		}
+	}
+	return out
+}
